@@ -65,7 +65,7 @@ def check(ctx) -> None:
     repo = ctx.repo
     ctx.rule("C18.pytest-flag", "needs_pytest is a sticky flag (False before the loop, only ever set to True inside it) with a trigger for every template that uses `pytest`; `import pytest` is emitted whenever the flag is set or the seed fixture is emitted", floor=7)
     ctx.rule("C18.module-body", "every cst.Module(body=...) built by the writer lists the import statements before the code that uses the imported names (sys before the alias binding, random/pytest before the seed patch and fixture, SUT and exception imports before the test functions)", floor=6)
-    ctx.rule("C18.exc-import", "every exception class named in pytest.raises(...) is recorded and imported unless it is a builtin - no other exclusion", floor=3)
+    ctx.rule("C18.exc-import", "every exception class named in pytest.raises(...) is recorded and imported unless it is a builtin - no other exclusion; the rendered reference and the imported name agree and resolve for top-level, nested and function-local exception classes (writer's expressions evaluated over representatives)", floor=6)
     ctx.rule("C18.namespace-agree", "the statement re-execution namespace and the rendered import bind the same SUT names (one shared helper)", floor=2)
     ctx.rule("C18.public-names", "ABSINT: _public_sut_names yields only attributes of the module, each once, and never the module alias (the rendered from-import must succeed and must not rebind the alias)", floor=1)
     _public_names(ctx, repo)
@@ -217,19 +217,13 @@ def check(ctx) -> None:
             ctx.check("C18.module-body", m, ok, f"unseeded module body order {order} puts test functions before an import they need", what=f"unseeded body order {order}", stmt="[unseeded-order]")
 
     # ------------------------------------------------------------------ C18.exc-import
-    adds = [n for n in own_nodes(btf) if isinstance(n, ast.Call) and norm(n.func) == "used_exc_types.add"]
-    raises_tpl = [n for n in own_nodes(btf) if isinstance(n, ast.Call) and norm(n.func) in ("cst.Name", "Name") and n.args and norm(n.args[0]).endswith(".__name__")]
-    ok = bool(adds) and bool(raises_tpl)
-    if ok:
-        # same branch: the add is in the same if-arm as the template
-        ok = all(any(_same_arm(a, r, btf) for a in adds) and norm(r.args[0]) == f"{norm(adds[0].args[0])}.__name__" for r in raises_tpl)
-    ctx.check("C18.exc-import", btf, ok, "an exception class is named in pytest.raises(...) without being recorded in used_exc_types: its import is never emitted", what="exception named in pytest.raises is recorded", stmt="[record]")
+    _exc_reference(ctx, repo, btf, write)
     loops = [n for n in own_nodes(write) if isinstance(n, ast.For) and norm(n.iter) == "used_exc_types"]
     if len(loops) != 1:
         raise AnalysisError("TestSuiteWriter.write: loop over used_exc_types not found")
     lp = loops[0]
     v = norm(lp.target)
-    stores = [n for n in ast.walk(lp) if isinstance(n, ast.Call) and last_attr(n) in ("append", "add") and f"{v}.__name__" in norm(n)]
+    stores = [n for n in ast.walk(lp) if isinstance(n, ast.Call) and last_attr(n) in ("append", "add") and (f"{v}.__name__" in norm(n) or f"{v}.__qualname__" in norm(n))]
     ok = len(stores) == 1
     if ok:
         conds = _enclosing_conditions(_stmt(stores[0]), lp)
@@ -286,6 +280,84 @@ def check(ctx) -> None:
     rem = [n for n in own_nodes(rm) if isinstance(n, ast.Call) and norm(n.func).endswith("assertions.remove")]
     ok = len(rem) == 1 and not [c for c in _enclosing_conditions(_stmt(rem[0]), rm)]
     ctx.check("C18.non-holding", rm, ok, "collected positions are not all removed from statement.assertions", what="every collected position removed", stmt="[remove]")
+
+
+class _TopLevelError(Exception):
+    pass
+
+
+class _Outer:
+    class Inner(Exception):
+        pass
+
+    class Mid:
+        class Deep(KeyError):
+            pass
+
+
+def _local_error():
+    class Local(ValueError):
+        pass
+
+    return Local
+
+
+def _exc_reference(ctx, repo, btf, write) -> None:
+    """The class named in pytest.raises(...) and the name that is imported for it agree and resolve in the test file,
+    for top-level classes, classes nested in classes and classes defined inside a function (evaluating the writer's own
+    expressions over representative exception classes)."""
+    from sa.engine import peval
+
+    mod = repo.module(EX)
+    # the template: Call(func=Attribute(pytest.raises), args=[Arg(value=E)])
+    tpl = [c for c in own_nodes(btf) if isinstance(c, ast.Call) and any(k.arg == "func" and "raises" in norm(k.value) and "pytest" in norm(k.value) for k in c.keywords)]
+    if len(tpl) != 1:
+        raise AnalysisError(f"C18.exc-import: expected one pytest.raises template in _build_test_function, found {len(tpl)}")
+    args_kw = next((k.value for k in tpl[0].keywords if k.arg == "args"), None)
+    inner = [x for x in ast.walk(args_kw) if isinstance(x, ast.Attribute) and x.attr in ("__name__", "__qualname__") and isinstance(x.value, ast.Name)] if args_kw is not None else []
+    if len(inner) != 1:
+        raise AnalysisError("C18.exc-import: the pytest.raises template does not name the class through __name__ / __qualname__ of a variable")
+    named = inner[0]
+    var = named.value.id
+    adds = [n for n in own_nodes(btf) if isinstance(n, ast.Call) and isinstance(n.func, ast.Attribute) and n.func.attr == "add" and n.args and any(_same_arm(n, tpl[0], btf) for _ in (0,))]
+    rec = [a for a in adds if norm(a.args[0]) == var]
+    ctx.check("C18.exc-import", tpl[0], bool(rec), f"the class named in pytest.raises(...) (`{var}`) is not the one recorded for the imports ({[norm(a.args[0]) for a in adds]}): its import is never emitted", what="the class named in pytest.raises is the one recorded", stmt="[record]")
+    # where does `var` come from: the raised class itself, or a helper applied to it
+    defs = [n for n in own_nodes(btf) if isinstance(n, ast.Assign) and len(n.targets) == 1 and norm(n.targets[0]) == var]
+    loops = [n for n in own_nodes(write) if isinstance(n, ast.For) and norm(n.iter) == "used_exc_types"]
+    if len(loops) != 1:
+        raise AnalysisError("TestSuiteWriter.write: loop over used_exc_types not found")
+    lv = norm(loops[0].target)
+    stores = [n for n in ast.walk(loops[0]) if isinstance(n, ast.Call) and last_attr(n) in ("append", "add") and n.args and lv in {x.id for x in ast.walk(n.args[0]) if isinstance(x, ast.Name)}]
+    if len(stores) != 1:
+        ctx.fail("C18.exc-import", loops[0], "the loop over used_exc_types no longer records one name per exception class", stmt="[name]")
+        return
+    local = _local_error()
+    for label, cls in (("a top-level class", _TopLevelError), ("a class nested in a class", _Outer.Inner), ("a class nested two levels deep", _Outer.Mid.Deep), ("a class defined inside a function", local)):
+        tag = f"[reference] {label} ({cls.__qualname__})"
+        it = peval.Interp(resolver=peval.repo_resolver(repo), native_types=(type,), max_steps=20000)
+        try:
+            if defs:
+                src_names = [x.id for x in ast.walk(defs[0].value) if isinstance(x, ast.Name) and x.id not in ("self",)]
+                env = {nm: cls for nm in src_names if nm not in peval.PURE}
+                chosen = it.ev(defs[0].value, env, mod)
+            else:
+                chosen = cls
+            rendered = it.ev(named, {var: chosen}, mod)
+            imported = it.ev(stores[0].args[0], {lv: chosen}, mod)
+        except (peval.Undecided, peval.Raises) as exc:
+            ctx.undecide("C18.exc-import", btf, f"{tag}: {exc}")
+            continue
+        problem = None
+        if not (isinstance(chosen, type) and issubclass(cls, chosen)):
+            problem = f"the class expected in pytest.raises ({chosen!r}) is no base of the raised class"
+        elif "<locals>" in str(rendered):
+            problem = f"pytest.raises({rendered}) names a class defined inside a function: the generated file is not valid Python"
+        elif str(rendered) != chosen.__qualname__:
+            problem = f"pytest.raises({rendered}) does not reach {chosen.__qualname__} from the imported names: `from <module> import {rendered}` fails for a nested class (ImportError at collection, the whole file fails)"
+        elif str(rendered).split(".")[0] != imported:
+            problem = f"pytest.raises({rendered}) needs `{str(rendered).split('.')[0]}`, but `{imported}` is imported"
+        ctx.check("C18.exc-import", tpl[0], problem is None, f"{tag}: {problem}", what=f"{tag}: pytest.raises({rendered}) with `import {imported}`", stmt=tag)
 
 
 def _stmt(n):
